@@ -488,6 +488,23 @@ func init() {
 			"exchange closure is observed by a watcher goroutine, so its timestamp is an upper bound",
 		},
 		Run: func(c *run.Ctx) {
+			if c.Case%64 == 9 {
+				// the broker acknowledges ahead of a write that then fails; whatever
+				// that does to the transfer at hand, what is accepted afterwards is
+				// still written
+				level := 1 + c.Rng.Intn(2)
+				acks := "the first acknowledgement"
+				if level == 2 && c.Rng.Intn(2) == 0 {
+					acks = "both acknowledgements"
+				}
+				outcome := []string{"fails", "expires", "is cut off by a reset", "completes"}[c.Rng.Intn(4)]
+				if level == 2 && outcome == "is cut off by a reset" {
+					outcome = "fails"
+				}
+				c13AckAhead(c, "C01", level, c.Rng.Intn(3), []int{0, 1, 2, 5, 1 << 20}[c.Rng.Intn(5)], acks, outcome)
+				c.Trigger("ack-ahead-of-write|" + outcome)
+				return
+			}
 			pp := pubParams{
 				NPub:    1 + c.Rng.Intn(24),
 				Levels:  [][]int{{1}, {2}, {1, 2}, {1, 2}}[c.Rng.Intn(4)],
